@@ -73,7 +73,12 @@ def make_source(rng):
              'extra': [f'x{u}' for u in ruid], 'mixed': [(u if i % 2 else f'm{u}') for i, u in enumerate(ruid)]}
     pdesc = {'puid': gen.wrap(puid, cont), 'pgrp': gen.wrap([pl[i] for i in pg_idx], cont),
              'pextra': [f'y{u}' for u in puid], 'pmixed': [(u if i % 2 else f'm{u}') for i, u in enumerate(puid)]}
-    src = RDMs(vals.copy(), rdm_descriptors=rdesc, pattern_descriptors=pdesc,
+    # vector-valued descriptors stored as ONE 2-d array (stimulus position, ROI coordinates): a row per item
+    rdesc['pos2d'] = np.array([[u, u + 0.5] for u in ruid], dtype=float)
+    pdesc['ppos2d'] = np.array([[u, u + 0.25] for u in puid], dtype=float)
+    # the id-coded values are whole numbers: a quarter of the sources store them in an integer array
+    int_storage = bool(rng.integers(4) == 0)
+    src = RDMs(vals.astype(np.int64) if int_storage else vals.copy(), rdm_descriptors=rdesc, pattern_descriptors=pdesc,
                dissimilarity_measure='test', descriptors={'exp': 1})
     meta = dict(n_rdm=n_rdm, n_cond=n_cond, rgk=rgk, pgk=pgk, lk=lk, cont=cont, ruid=ruid, puid=puid,
                 rgrp=[rl[i] for i in rg_idx], pgrp=[pl[i] for i in pg_idx], vals=vals, zero_pairs=zero_pairs,
@@ -128,6 +133,16 @@ def check_sample(ctx, check, sig, sample, meta, rdm_sel, pat_sel, rdm_by, pat_by
     pg = dict(zip(meta['puid'], meta['pgrp']))
     def same_value(x, y):
         return isinstance(x, str) == isinstance(y, str) and x == y
+    for k, u in enumerate(ruid_s):
+        if not np.array_equal(np.asarray(sample.rdm_descriptors['pos2d'][k], dtype=float), [u, u + 0.5]):
+            ctx.fail(check, dict(sig, what='rdm_descriptors'), f'row of the 2-d descriptor for RDM uid {u} came back as '
+                     f'{sample.rdm_descriptors["pos2d"][k]!r}', wit())
+            return False
+    for k, u in enumerate(puid_s):
+        if not np.array_equal(np.asarray(sample.pattern_descriptors['ppos2d'][k], dtype=float), [u, u + 0.25]):
+            ctx.fail(check, dict(sig, what='pattern_descriptors'), f'row of the 2-d descriptor for condition uid {u} came '
+                     f'back as {sample.pattern_descriptors["ppos2d"][k]!r}', wit())
+            return False
     for k, u in enumerate(ruid_s):
         if not same_value(sample.rdm_descriptors['mixed'][k], meta['rmixed'][u]):
             ctx.fail(check, dict(sig, what='rdm_descriptors'), f'mixed-type descriptor value of RDM uid {u} came back as '
@@ -277,7 +292,7 @@ def run_config(ctx, tap):
             how = gen.pick(rng, ['reorder', 'sort_by', 'rescale_values'])
             try:
                 if how == 'rescale_values':
-                    src.dissimilarities *= 2.0          # the user edits the values in place (exact in floating point)
+                    src.dissimilarities *= 2            # the user edits the values in place (exact for floats and integers)
                     meta['scale'] *= 2.0
                 elif how == 'reorder':
                     src.reorder([int(i) for i in rng.permutation(meta['n_cond'])])
